@@ -29,3 +29,33 @@ Definition gconc_sx (c : nat) (progs : list (list call)) (sch : list (nat * nat)
       sx_list (fun th => sx_list sx_cres (gouts th)) (gthreads cfg);
       sx_list (fun th => sx_list sx_cres (gobs th)) (gthreads cfg);
       sx_list SZ (graph_ints (code_heap (gheap cfg)))].
+
+(* the same with blocks (t, kind, n) as in LfuConcShow.conc_sx: kind 0 = n raw steps of thread t (skipped while t
+   is not enabled); kind 1 = thread t runs until n more of its LOCKING calls have returned (lock-free calls that
+   precede them in program order run on the way) or it is not enabled - so that a schedule can follow an observed
+   lock-acquisition order call by call *)
+Definition gnouts (cfg : gconfig content call cres) (t : nat) : nat :=
+  match nth_error (gthreads cfg) t with Some th => List.length (gouts th) | None => 0 end.
+Fixpoint grun_call (cfg : gconfig content call cres) (t : nat) (fuel : nat) : gconfig content call cres :=
+  match fuel with
+  | O => cfg
+  | S f => match gtstep is_reader call_impl cfg t with
+           | None => cfg
+           | Some c1 => if Nat.ltb (gnouts cfg t) (gnouts c1 t) then c1 else grun_call c1 t f
+           end
+  end.
+Fixpoint grun_calls (cfg : gconfig content call cres) (t n : nat) : gconfig content call cres :=
+  match n with O => cfg | S m => grun_calls (grun_call cfg t 5000) t m end.
+Definition grun_block (cfg : gconfig content call cres) (b : nat * nat * nat) : gconfig content call cres :=
+  let '(t, kind, n) := b in
+  match kind with
+  | O => gexec_skip is_reader call_impl cfg (repeat t n)
+  | _ => grun_calls cfg t n
+  end.
+Definition gconc3_sx (c : nat) (progs : list (list call)) (sch : list (nat * nat * nat)) : sx :=
+  let cfg := fold_left grun_block sch (ginit cres (hempty c) progs) in
+  SL [sx_bool (gall_done cfg); sx_bool (gany_crashed cfg);
+      sx_list (fun x => SL [sx_nat (fst x); sx_call (snd x)]) (glog cfg);
+      sx_list (fun th => sx_list sx_cres (gouts th)) (gthreads cfg);
+      sx_list (fun th => sx_list sx_cres (gobs th)) (gthreads cfg);
+      sx_list SZ (graph_ints (code_heap (gheap cfg)))].
